@@ -280,6 +280,16 @@ func (bc *BlockChain) SetHead(head uint64) error {
 	bc.mu.Lock()
 	defer bc.mu.Unlock()
 
+	// Move the persisted head pointer down first: the deletions below remove
+	// blocks from the top, and a crash in the middle of them must not leave
+	// the pointer naming a block that is already gone.
+	if cur := bc.CurrentBlock(); cur != nil && cur.NumberU64() > head {
+		if target := bc.GetBlockByNumber(head); target != nil {
+			if err := WriteHeadBlockHash(bc.db, target.Hash()); err != nil {
+				log.Crit("Failed to rewind head full block", "err", err)
+			}
+		}
+	}
 	// Rewind the header chain, deleting all block bodies until then
 	delFn := func(hash common.Hash, num uint64) {
 		// drop the transaction lookup entries and receipts of the rewound block
